@@ -95,6 +95,23 @@ func configure(fast, enable bool) error {
 	})
 }
 
+// rejectedThenPlain: a Refresh that is rejected because of an ill-typed caller option, then a valid
+// Refresh that does not mention the caller options at all. The options are sticky process
+// settings: a rejected configuration must leave them as they validly were.
+func rejectedThenPlain(bad string, which int) error {
+	log.Destroy()
+	vk.ResetRecs()
+	m := map[string]string{"appender.rec.type": "Rec", "logger.l.type": "Logger", "logger.l.tags": "_c11_t", "logger.l.appenderRef.ref": "rec"}
+	m[[]string{"enableCaller", "fastCaller"}[which]] = bad
+	if err := log.Refresh(m); err == nil {
+		log.Destroy()
+		return fmt.Errorf("Refresh accepted %s=%q", []string{"enableCaller", "fastCaller"}[which], bad)
+	}
+	log.Destroy()
+	vk.ResetRecs()
+	return log.Refresh(map[string]string{"appender.rec.type": "Rec", "logger.l.type": "Logger", "logger.l.tags": "_c11_t", "logger.l.appenderRef.ref": "rec"})
+}
+
 func visit(p program, s site, fast, enable bool) error {
 	c := &siteCtx{ctx: context.Background(), tag: tag}
 	r := vk.Rec("rec")
@@ -166,6 +183,18 @@ func TestC11_Sites(t *testing.T) {
 					}
 					seq = append(seq, fmt.Sprintf("mode(fast=%v,caller=%v)", fast, enable))
 				}
+				if rapid.IntRange(0, 11).Draw(t, "rejected") == 0 {
+					bad := rapid.SampledFrom([]string{"yes", "on", "2", "enabled", ""}).Draw(t, "badValue")
+					which := rapid.IntRange(0, 1).Draw(t, "badOption")
+					if bad == "" {
+						bad = "maybe"
+					}
+					if err := rejectedThenPlain(bad, which); err != nil {
+						t.Fatalf("VERIF-VIOLATION C11: %v\nprogram seed %d, steps: %s", err, p.seed, strings.Join(seq, " "))
+					}
+					seq = append(seq, fmt.Sprintf("rejected(%d=%s)+plain-refresh", which, bad))
+					vk.Class("after-rejected-caller-option")
+				}
 				var s site
 				if i > 0 && rapid.IntRange(0, 2).Draw(t, "revisit") == 0 {
 					s = p.sites[rapid.IntRange(0, min(len(p.sites), 12)-1).Draw(t, "hotSite")]
@@ -199,6 +228,55 @@ func TestC11_Sites(t *testing.T) {
 			vk.Sample(map[string]any{"program_seed": p.seed, "steps": strings.Join(seq, " ")})
 		})
 	}
+}
+
+// TestC11_ManySites: in fast mode every call site of every linked program (more than a thousand
+// distinct ones) is visited, then all of them again in a generated order: a site's cached location
+// must still be its own however many other sites were resolved in between.
+func TestC11_ManySites(t *testing.T) {
+	vk.Rule(rule)
+	defer log.Destroy()
+	type ps struct {
+		p program
+		s site
+	}
+	var all []ps
+	for _, p := range programs {
+		for _, s := range p.sites {
+			all = append(all, ps{p, s})
+		}
+	}
+	vk.Extra("distinct_sites_swept", len(all))
+	rapid.Check(t, func(t *rapid.T) {
+		if err := configure(true, true); err != nil {
+			t.Fatalf("VERIF-INCONCLUSIVE C11: Refresh failed: %v", err)
+		}
+		first := rapid.IntRange(0, len(all)-1).Draw(t, "rotate")
+		for i := range all {
+			x := all[(first+i)%len(all)]
+			vk.Eval()
+			if err := visit(x.p, x.s, true, true); err != nil {
+				t.Fatalf("VERIF-VIOLATION C11: first sweep: %v", err)
+			}
+		}
+		order := rapid.Permutation(seqN(len(all))).Draw(t, "order")
+		for n, i := range order {
+			x := all[i]
+			vk.Eval()
+			if err := visit(x.p, x.s, true, true); err != nil {
+				t.Fatalf("VERIF-VIOLATION C11: after %d other call sites had been resolved: %v", len(all)+n, err)
+			}
+		}
+		vk.NonTrivial(fmt.Sprintf("sweep/%d/%d", first, order[0]))
+	})
+}
+
+func seqN(n int) []int {
+	s := make([]int, n)
+	for i := range s {
+		s[i] = i
+	}
+	return s
 }
 
 // TestRegress_C11: shrunk failure found before the fix: commit - the first site of the committed
